@@ -787,6 +787,8 @@ class MemoryPathIO(AbstractPathIO):
         elif mode in ("wb", "ab", "r+b"):
             node = self.get_node(path)
             if node is None:
+                if mode == "r+b":
+                    raise FileNotFoundError
                 parent = self.get_node(path.parent)
                 if parent is None or parent.type != "dir":
                     raise FileNotFoundError
@@ -831,15 +833,22 @@ class MemoryPathIO(AbstractPathIO):
 
     @universal_exception
     async def rename(self, source, destination):
+        snode = self.get_node(source)
+        if snode is None:
+            raise FileNotFoundError
         if source != destination:
             sparent = self.get_node(source.parent)
             dparent = self.get_node(destination.parent)
-            snode = self.get_node(source)
-            if None in (snode, dparent):
+            if dparent is None:
                 raise FileNotFoundError
+            if dparent.type != "dir":
+                raise NotADirectoryError
+            if self._absolute(destination).is_relative_to(self._absolute(source)):
+                raise OSError("Invalid argument")
             for i, node in enumerate(sparent.content):
                 if node.name == source.name:
                     sparent.content.pop(i)
+                    break
             snode.name = destination.name
             for i, node in enumerate(dparent.content):
                 if node.name == destination.name:
